@@ -150,8 +150,9 @@ class GuardMap:
         `attrs = rule["attrs"]; if attrs["global"]` and `if rule["attrs"]["global"]` give the same atom)"""
         if self._aliases is None:
             stores: Dict[str, int] = {}
+            bare = {id(n.target) for n in walk_no_nested(self.fn) if isinstance(n, ast.AnnAssign) and n.value is None}
             for n in walk_no_nested(self.fn):
-                if isinstance(n, ast.Name) and isinstance(n.ctx, (ast.Store, ast.Del)):
+                if isinstance(n, ast.Name) and isinstance(n.ctx, (ast.Store, ast.Del)) and id(n) not in bare:
                     stores[n.id] = stores.get(n.id, 0) + 1
             params = set()
             if isinstance(self.fn, FuncT):
